@@ -344,14 +344,15 @@ func (w *worker) stageConsensus() {
 	types := []uint64{0, 1, 2, 3, 4, 5}
 	// 2^63+cur and 2^63+cur+1 alias cur and cur+1 in the validator's slot-time arithmetic
 	// (slot*12 wraps modulo 2^64), so they get past the early/late checks like an honest height
-	heights := []uint64{0, 1, cur - 22, cur, 1 << 63, 1<<63 + cur + 1, math.MaxUint64}
+	// (0..3: every residue modulo a committee of 4 - the leader is (height%n + round - 1) % n)
+	heights := []uint64{0, 1, 2, 3, cur - 22, cur, 1 << 63, 1<<63 + cur + 1, math.MaxUint64}
 	rounds := []uint64{0, 1, 2, 12, 13, math.MaxInt64, math.MaxUint64}
 	// (clock, signature byte) variants: 1 s into the slot with a non-zero signature; thorough adds
 	// 11.9 s into the slot (estimated round 6) and the all-zero signature
 	intos := []int{defaultInto}
 	sigs := []byte{1}
 	if w.thorough {
-		heights = []uint64{0, 1, cur - 22, cur - 1, cur, cur + 1, math.MaxInt64, 1 << 63, 1<<63 + cur, 1<<63 + cur + 1, math.MaxUint64}
+		heights = []uint64{0, 1, 2, 3, cur - 22, cur - 1, cur, cur + 1, math.MaxInt64, 1 << 63, 1<<63 + cur, 1<<63 + cur + 1, math.MaxUint64}
 		rounds = []uint64{0, 1, 2, 6, 7, 12, 13, math.MaxInt32, 1 << 32, math.MaxInt64, 1 << 63, math.MaxUint64}
 		intos = []int{defaultInto, 11900, defaultInto}
 		sigs = []byte{1, 1, 0}
